@@ -43,6 +43,10 @@ THEOREMS = [
     "Jinns.LossTerms.normStatio_ne_mean_of_sq_dev",
     "Jinns.LossTerms.rowParams_observed",
     "Jinns.LossTerms.rowParams_other",
+    "Jinns.LossTerms.obsRowParams_observed_wins",
+    "Jinns.LossTerms.obsRowParams_generated_only",
+    "Jinns.LossTerms.obsRowParams_other",
+    "Jinns.LossTerms.obsRowParams_no_pbatch",
     "Jinns.LossTerms.obsTerm_closed_form",
     "Jinns.LossTerms.obsTerm_row_alignment",
     "Jinns.LossTerms.slice_apply_apply",
@@ -97,8 +101,45 @@ def gen_case(rng, kind, d, m, n, want):
     return case
 
 
+def gen_pbatch_case(rng, kind, d, m, n, combo, with_ic):
+    """the batch carries a parameter batch AND observed equation parameters (equal batch sizes).
+    combo: which keys are generated / observed, e.g. ("theta", "theta") = the same key in both (the observed
+    rows must win in the observation term), ("kappa", "theta") = disjoint keys, ("theta+kappa", "theta") …"""
+    gen_keys, obs_keys = combo[0].split("+"), combo[1].split("+")
+    case = K.base_case(rng, kind, d, m, n)
+    case["kappa"] = K.q(Fr(rng.choice([-3, -1, 1, 3]), 2))
+    case["slice_solution"] = pick_slice_solution(rng, m)
+    if kind == "nonstatio":
+        # distinct spatial points (row i of the inside batch goes with row i of the parameter batch), times != 0
+        xs = K.gen_inside(rng, "statio", max(d, 1), n)
+        case["batch"]["inside"] = [[K.q(Fr(rng.randint(2, 8), 2))] + K.qrow(x) for x in xs]
+    pool = [Fr(x, 2) for x in range(-8, 9) if Fr(x, 2) not in (K.F(case["theta"]), K.F(case["kappa"]))]
+    cols = rng.sample(pool, 4 * n) if 4 * n <= len(pool) else [rng.choice(pool) for _ in range(4 * n)]
+    case["pbatch"] = {}
+    for j, k in enumerate(gen_keys):
+        case["pbatch"][k] = K.qrow(cols[j * n:(j + 1) * n])
+    case["obs"] = K.gen_obs(rng, case, n, with_theta=False)
+    for j, k in enumerate(obs_keys):
+        case["obs"]["observed_" + k] = K.qrow(cols[(2 + j) * n:(3 + j) * n])
+    case["obs"]["theta_1d"] = False
+    if with_ic and kind != "statio":
+        case["ic"] = K.gen_ic(rng, case)
+    case["combo"] = "gen=" + combo[0] + ";obs=" + combo[1]
+    return case
+
+
+PB_COMBOS = [("theta", "theta"), ("kappa", "kappa"), ("theta", "kappa"), ("kappa", "theta"),
+             ("theta+kappa", "theta"), ("theta", "theta+kappa"), ("theta+kappa", "kappa+theta")]
+
+
 def gen_cases(rng, tier):
     cases = []
+    for kind, d in (("ode", 0), ("statio", 1), ("statio", 2), ("nonstatio", 1), ("nonstatio", 2)):
+        combos = PB_COMBOS if tier == "thorough" else PB_COMBOS[:1] + rng.sample(PB_COMBOS[1:], 2)
+        for rep in range(1 if tier == "quick" else 4):
+            for combo in combos:
+                cases.append(gen_pbatch_case(rng, kind, d, rng.choice([1, 2, 2, 3]), rng.choice([2, 4, 4] + ([3, 8] if tier == "thorough" else [])),
+                                             combo, with_ic=rng.random() < 0.6))
     reps = 6 if tier == "quick" else 60
     plan = {"ode": [{"ic"}, {"obs"}, {"ic", "obs"}, {"ic", "obs", "dyn"}],
             "statio": [{"norm"}, {"obs"}, {"norm", "obs"}],
@@ -127,16 +168,23 @@ def holds_obs(case, arrays, base, tol):
             u0 = [K.F(x) for x in c["u0"]]
             if len(u0) == 1:
                 u0 = u0 * m
-            o["ic_ode"] = {"value": terms["initial_condition"], "w": c["w"], "ut0": K.qrow(ex.uval([K.F(c["t0"])])),
-                           "u0": K.qrow(u0)}
+            if not case.get("pbatch"):
+                o["ic_ode"] = {"value": terms["initial_condition"], "w": c["w"],
+                               "ut0": K.qrow(ex.uval([K.F(c["t0"])])), "u0": K.qrow(u0)}
+            else:
+                # one row per row of the parameter batch: the term is the mean of the per-row terms, i.e. the
+                # PDE-style mean over rows of w * sum_c (u(t0; params_j) - u0)_c^2
+                o["ic_pde"] = {"value": terms["initial_condition"], "w": {"scalar": c["w"]},
+                               "rows": [[K.qrow(u0), K.qrow(ex.uval([K.F(c["t0"])], **pr))] for pr in K.pb_rows(case)]}
         else:
             rows = []
-            for r in arrays["inside"]:
+            prs = K.pb_rows(case)
+            for i, r in enumerate(arrays["inside"]):
                 x = r[1:]
                 v = ex.fn(c["u0"], [Fr(0)] + x)
                 if len(v) == 1:
                     v = v * m
-                rows.append([K.qrow(v), K.qrow(ex.uval([Fr(0)] + x))])
+                rows.append([K.qrow(v), K.qrow(ex.uval([Fr(0)] + x, **(prs[i] if case.get("pbatch") else {})))])
             o["ic_pde"] = {"value": terms["initial_condition"], "w": c["w"], "rows": rows}
     if case.get("norm"):
         c = case["norm"]
@@ -152,8 +200,7 @@ def holds_obs(case, arrays, base, tol):
         c, ao = case["obs"], arrays["obs"]
         rows = []
         for i, inp in enumerate(ao["ins"]):
-            th = ex.theta if ao["thetas"] is None else ao["thetas"][i]
-            pred = ex.uval(inp, th)[lo:hi]
+            pred = ex.uval(inp, **K.obs_row_kwargs(case, arrays, i))[lo:hi]
             if c.get("obs_slice") is not None:
                 pred = pred[c["obs_slice"][0]:c["obs_slice"][1]]
             rows.append([K.qrow(pred), K.qrow(ao["vals"][i])])
@@ -182,6 +229,8 @@ def run_impl(case):
         facts["norm_nonconstant"] = len({tuple(ex.uval(t0 + s)[lo:hi]) for s in samples}) > 1
     if case.get("obs"):
         ths = arrays["obs"]["thetas"]
+        if ths is None and arrays["obs"].get("kappas") is not None:
+            ths = arrays["obs"]["kappas"]
         facts["obs_theta_distinct"] = ths is not None and len(set(ths)) > 1 and any(t != ex.theta for t in ths)
         facts["nobs"] = len(arrays["obs"]["ins"])
     if case.get("ic") and case["kind"] == "nonstatio":
@@ -219,8 +268,9 @@ def nontrivial(case, obs):
         good = True
     if case.get("norm") and K.F(t["norm_loss"]) != 0 and f.get("norm_nonconstant"):
         good = True
-    if case.get("obs") and K.F(t["observations"]) != 0 and (case["obs"].get("observed_theta") is None
-                                                            or f.get("obs_theta_distinct")):
+    if case.get("obs") and K.F(t["observations"]) != 0 and (
+            (case["obs"].get("observed_theta") is None and case["obs"].get("observed_kappa") is None)
+            or f.get("obs_theta_distinct")):
         good = True
     return good
 
@@ -236,6 +286,8 @@ def tags(case, obs):
         out.append("obs_slice=" + ("none" if o.get("obs_slice") is None else "slice"))
         out.append("observed_theta=" + ("no" if o.get("observed_theta") is None else "1d" if o.get("theta_1d") else "n1"))
         out.append("obs_batch=" + ("loader" if o.get("loader") else "hand"))
+    if case.get("pbatch"):
+        out.append("param_batch:" + case["combo"])
     if "error" in obs["base"]:
         out.append("error=" + obs["base"]["error"])
         return out
@@ -251,6 +303,19 @@ def shrink_candidates(case):
             c = dict(case)
             c[k] = None
             yield c
+    if case.get("pbatch"):
+        # the parameter batch, the inside batch and the observation batch keep equal sizes
+        n = len(case["obs"]["ins"])
+        if n > 1:
+            k = n // 2
+            c = dict(case)
+            o = case["obs"]
+            c["batch"] = {**case["batch"], "inside": case["batch"]["inside"][:k]}
+            c["pbatch"] = {kk: col[:k] for kk, col in case["pbatch"].items()}
+            c["obs"] = {**o, "ins": o["ins"][:k], "vals": o["vals"][:k],
+                        **{kk: o[kk][:k] for kk in ("observed_theta", "observed_kappa") if o.get(kk) is not None}}
+            yield c
+        return
     b = case["batch"]
     if len(b["inside"]) > 1:
         c = dict(case)
